@@ -522,20 +522,56 @@ func c15R2(x *c15x) {
 	epCancel := c15CancelSpec{c15TEndpoint, "cancel"}
 	clCancel := c15CancelSpec{c15TCluster, "cancel"}
 
-	// (1) syncEndpoints
+	// (1) syncEndpoints. The deletion may sit in the range callback itself, in a method whose
+	// value is the callback, or in a helper the callback calls: the Region of syncEndpoints is
+	// scanned and every deletion is decided in every calling context that leads up to
+	// syncEndpoints (eng.UpChains). Obligations are reported against the callback.
 	if se := c.MustMethod(pkgClusters, "ClusterInfo", "syncEndpoints"); se != nil {
 		n := 0
-		for _, fn := range eng.WithClosures(se) {
+		isSE := func(f *ssa.Function) bool { return f == se }
+		for _, fn := range c.W.Region(se) {
 			for _, ci := range eng.CallsTo(fn, "(*"+c15TEPMap+").LoadAndDelete", "(*"+c15TEPMap+").Delete") {
 				l, isCall := ci.(*ssa.Call)
 				if !isCall {
 					continue
 				}
+				// the calling contexts in which this deletion runs as part of syncEndpoints
+				var chains []eng.UpChain
+				for _, ch := range c.W.UpChains(fn, isSE) {
+					if ch.Top(fn) == se {
+						chains = append(chains, ch)
+					}
+				}
+				if len(chains) == 0 {
+					continue // a helper also used elsewhere, reached from syncEndpoints through no known path
+				}
 				n++
+				// the range callback that performs (or leads to) the deletion
+				var cb *ssa.Function
+				var rangeCalls []ssa.CallInstruction
+				oneCB := true
+				for _, ch := range chains {
+					site := ch.CallbackSite()
+					if site == nil || (cb != nil && site.Fn != cb) {
+						oneCB = false
+						break
+					}
+					cb = site.Fn
+					rangeCalls = append(rangeCalls, site.Call)
+				}
+				rep := fn // where the obligations are reported
+				if oneCB && cb != nil {
+					rep = cb
+				}
 				// own map
 				base := eng.FieldBase(eng.Receiver(l), c15TCluster, "Endpoints")
-				own := base != nil && x.sl.DerivesFrom(base, func(v ssa.Value) bool { return v == ssa.Value(se.Params[0]) })
-				x.check("R2", fn, x.nth(fn, "removed endpoint deleted from the receiver's own map"), l.Pos(), own, "the endpoint is not removed from the Endpoints map of the cluster being synced: Pop() keeps finding it")
+				own := base != nil
+				for _, ch := range chains {
+					if own && !ch.DerivesFrom(x.sl, base, func(v ssa.Value) bool { return v == ssa.Value(se.Params[0]) }) {
+						own = false
+					}
+				}
+				x.check("R2", rep, x.nth(rep, "removed endpoint deleted from the receiver's own map"), l.Pos(), own, "the endpoint is not removed from the Endpoints map of the cluster being synced: Pop() keeps finding it")
 				// cancel on the loaded edge
 				var info ssa.Value
 				for _, e := range eng.ExtractOf(l, 0) {
@@ -560,22 +596,41 @@ func c15R2(x *c15x) {
 						}
 					}
 				}
-				x.check("R2", fn, x.nth(fn, "removed endpoint's cancel invoked"), l.Pos(), okC, whyC)
+				x.check("R2", rep, x.nth(rep, "removed endpoint's cancel invoked"), l.Pos(), okC, whyC)
 
 				// the callback ranges over current∖wanted and never stops the iteration
-				if fn == se {
+				if !oneCB || cb == nil {
 					c.Undecided("R2", fn, x.nth(fn, "removed set = current endpoints ∖ wanted servers"), l.Pos(), "deletion is not performed by a set-range callback; the removed set cannot be identified")
 					continue
 				}
-				okSet, whySet := x.removedSet(se, fn, l)
+				okSet, whySet := true, ""
+				for k, ch := range chains {
+					if o, w := x.removedSet(se, cb, l, ch, rangeCalls[k]); !o {
+						okSet, whySet = false, w
+					}
+				}
 				x.check("R2", se, x.nth(se, "removed set = current endpoints ∖ wanted servers"), l.Pos(), okSet, whySet)
 				allTrue := true
-				eng.Instrs(fn, func(ins ssa.Instruction) {
-					if r, ok := ins.(*ssa.Return); ok && (len(r.Results) != 1 || !eng.IsBoolConst(r.Results[0], true)) {
+				eng.Instrs(cb, func(ins ssa.Instruction) {
+					r, ok := ins.(*ssa.Return)
+					if !ok || r.Block() == cb.Recover {
+						return
+					}
+					if len(r.Results) != 1 {
+						allTrue = false
+						return
+					}
+					ls := x.sl.Leaves(r.Results[0], nil)
+					for _, v := range ls {
+						if !eng.IsBoolConst(v, true) {
+							allTrue = false
+						}
+					}
+					if len(ls) == 0 {
 						allTrue = false
 					}
 				})
-				x.check("R2", fn, x.nth(fn, "range callback never stops the iteration"), fn.Pos(), allTrue, "the callback can return false: the remaining removed endpoints are neither deleted nor cancelled")
+				x.check("R2", cb, x.nth(cb, "range callback never stops the iteration"), cb.Pos(), allTrue, "the callback can return false: the remaining removed endpoints are neither deleted nor cancelled")
 			}
 		}
 		if n == 0 {
@@ -597,43 +652,44 @@ func c15R2(x *c15x) {
 	x.notFoundUsesStop()
 }
 
-// removedSet checks that closure cb (which deletes with call l) is the callback of
-// Range on  current.Diff(wanted)  where current derives from the cluster's endpoint names
+// removedSet checks that cb (the closure or method that deletes with call l, itself or
+// through the helpers of calling context ch) is the callback of rangeCall, a Range on
+// current.Diff(wanted)  where current derives from the cluster's endpoint names
 // and wanted collects the Endpoint of every element of the servers parameter, and that the
 // deleted key is the callback's element.
-func (x *c15x) removedSet(se, cb *ssa.Function, l *ssa.Call) (bool, string) {
+func (x *c15x) removedSet(se, cb *ssa.Function, l *ssa.Call, ch eng.UpChain, rangeCall ssa.CallInstruction) (bool, string) {
 	isNames := func(v ssa.Value) bool {
 		cc, _ := eng.CallResultOf(v)
 		return cc != nil && eng.IsCall(cc, "(*"+c15TCluster+").AllEndpoints", "(*"+c15TEPMap+").Names")
 	}
 	// key = the callback's element parameter
 	keyOK := false
-	for _, p := range cb.Params {
-		if _, isI := p.Type().Underlying().(*types.Interface); isI && x.sl.DerivesFrom(eng.Args(l)[0], func(v ssa.Value) bool { return v == ssa.Value(p) }) {
+	params := cb.Params
+	if cb.Signature.Recv() != nil && len(params) > 0 {
+		params = params[1:]
+	}
+	for _, p := range params {
+		if _, isI := p.Type().Underlying().(*types.Interface); isI && ch.DerivesFrom(x.sl, eng.Args(l)[0], func(v ssa.Value) bool { return v == ssa.Value(p) }) {
 			keyOK = true
 		}
 	}
 	if !keyOK {
 		return false, "the deleted key is not the element handed to the range callback"
 	}
-	var rangeCall ssa.CallInstruction
-	for _, fn := range eng.WithClosures(se) {
-		for _, ci := range eng.Calls(fn) {
-			if !eng.MethodNameIs(ci, "Range") {
-				continue
-			}
-			for _, a := range eng.Args(ci) {
-				if mc, ok := a.(*ssa.MakeClosure); ok && mc.Fn == ssa.Value(cb) {
-					rangeCall = ci
-				}
-			}
-		}
-	}
-	if rangeCall == nil {
+	if rangeCall == nil || !eng.MethodNameIs(rangeCall, "Range") {
 		return false, "the deleting closure is not passed to a Range call"
 	}
-	diffs := x.resultsOf(eng.Receiver(rangeCall), -1, func(cc *ssa.Call) bool { return eng.MethodNameIs(cc, "Diff") })
-	if len(diffs) != 1 {
+	// the ranged set, followed through the parameters of the helpers on the way up to syncEndpoints
+	isDiff := func(u ssa.Value) bool { cc, _ := eng.CallResultOf(u); return cc != nil && eng.MethodNameIs(cc, "Diff") }
+	var diffs []*ssa.Call
+	for _, lf := range ch.Leaves(x.sl, eng.Receiver(rangeCall), isDiff) {
+		cc, i := eng.CallResultOf(lf)
+		if cc == nil || i != -1 || !isDiff(lf) {
+			return false, "the ranged set is not the result of a single Diff"
+		}
+		diffs = append(diffs, cc)
+	}
+	if len(diffs) != 1 || eng.Outermost(diffs[0].Parent()) != se {
 		return false, "the ranged set is not the result of a single Diff"
 	}
 	d := diffs[0]
